@@ -1,6 +1,16 @@
 """C10 add-on: the model-free script families (modules without a Lean allocation-fault model).
-See the bottom of this file for FAMILIES; harness side: harness/C10/h_extra.inc (pool, js, ta —
-part of h.c) and harness/C10/h2.c (rx, mp, fn, mbs, tls, cxs — modules calling libc directly)."""
+
+Harness side: harness/C10/h_extra.inc (pool, js, ta - part of h.c, they take the CxMem) and
+harness/C10/h2.c (rx, mp, fn, mbs, tls, cxs - modules calling libc directly + cx_* formatting).
+checks/C10.py drives them through `check_model_free` (property monitor, no model):
+  FAMILIES = {name: (generator(rng) -> op lines of ONE script, "h" | "h2", opts)}
+  opts: prefix       first word of the family's op lines + space (routes corpus / replay cases)
+        non_atomic   "fam op" strings exempt from the all-or-nothing rule
+        strict_live  an op reporting failure leaves the number of live blocks unchanged
+        live_exact   `live=` is compared with the fault-free reference run
+Every op line prints "<P>:<ret> <dump> live=<n>": <ret> is the result of the op, <dump> is a
+function of the abstract state only (an op that reports failure must reproduce the previous dump)."""
+import json
 import os
 import re
 import vf
@@ -9,9 +19,594 @@ import vf
 H1_EXTRA_SRCS = ["repo:usual/json.c", "repo:usual/talloc.c", "repo:usual/utf8.c"]
 H1_EXTRA_FLAGS = ["-lm"]
 
+H2_SRCS = ["repo:usual/fnmatch.c", "repo:usual/wchar.c", "repo:usual/string.c", "repo:usual/cxalloc.c",
+           "repo:usual/mbuf.c",
+           "repo:usual/tls/tls.c", "repo:usual/tls/tls_peer.c", "repo:usual/tls/tls_client.c",
+           "repo:usual/tls/tls_server.c", "repo:usual/tls/tls_config.c", "repo:usual/tls/tls_conninfo.c",
+           "repo:usual/tls/tls_util.c", "repo:usual/tls/tls_ocsp.c", "repo:usual/tls/tls_compat.c",
+           "repo:usual/tls/tls_cert.c", "repo:usual/tls/tls_verify.c"]
+# config.h of the tree under test with these commented out, so that usual/fnmatch.c is what gets built
+H2_FORCED = ["FNMATCH", "FNMATCH_H"]
+
+
+def _tls_flags():
+    """TLS_CPPFLAGS / TLS_LDFLAGS / TLS_LIBS of the configured tree (config.mak)"""
+    cpp, ld, libs = [], [], ["-lssl", "-lcrypto"]
+    try:
+        txt = open(vf.repo_file("config.mak")).read()
+        for key, dst in (("TLS_CPPFLAGS", cpp), ("TLS_LDFLAGS", ld), ("TLS_LIBS", None)):
+            m = re.search(r"^%s[ \t]*=[ \t]*(.*)$" % key, txt, re.M)
+            if m:
+                if dst is None:
+                    if m.group(1).split():
+                        libs = m.group(1).split()
+                else:
+                    dst += m.group(1).split()
+    except OSError:
+        pass
+    return cpp, ld, libs
+
+
+def derive_config(ck):
+    """<bdir>/cfg/usual/config.h = the tree's config.h without HAVE_FNMATCH / HAVE_FNMATCH_H"""
+    cfgdir = os.path.join(ck.bdir, "cfg")
+    src = open(vf.repo_file("usual/config.h")).read()
+    out, hit = [], []
+    for line in src.split("\n"):
+        m = re.match(r"^#define\s+HAVE_(\w+)\s", line + " ")
+        if m and m.group(1) in H2_FORCED:
+            hit.append(m.group(1))
+            out.append("/* forced-compat: " + line + " */")
+        else:
+            out.append(line)
+    vf.write_if_changed(os.path.join(cfgdir, "usual", "config.h"), "\n".join(out))
+    return cfgdir, sorted(hit)
+
 
 def build_more(ck, WRAP):
-    return {}
+    cfgdir, hit = derive_config(ck)
+    ck.cov["h2_forced_compat"] = hit
+    cpp, ld, libs = _tls_flags()
+    # -fno-builtin: malloc/calloc/free must stay plain calls (they are --wrap'ped)
+    flags = ["-I" + cfgdir, "-I" + vf.REPO, "-I" + os.path.join(vf.HARNESS, "C10"),
+             "-DUSE_INTERNAL_REGEX", "-fno-builtin"] + list(WRAP) + cpp + ld
+    h2 = ck.cc(os.path.join(ck.bdir, "h2"), [os.path.join(vf.HARNESS, "C10", "h2.c")] + H2_SRCS,
+               flags=flags, include_repo=False, libs=libs)
+    return {"h2": [h2]}
 
 
-FAMILIES = {}
+H = vf.hexs
+
+
+# ------------------------------------------------------------------------------ cx pool
+def g_pool(rng, mode):
+    ops = ["pool new %d %d" % (rng.choice([0, 100, 1024, 2000, 5000]), rng.choice([0, 8, 16]))]
+    slot = 0
+    live = []
+    for _ in range(6 + rng.below(26)):
+        r = rng.below(100)
+        if mode == "realloc" and r < 40 and live:
+            s = live[-1] if rng.chance(1, 2) else rng.choice(live)
+            ops.append("pool realloc %d %d" % (s, rng.choice([1, 7, 64, 100, 333, 800, 1500, 3000, 100 + rng.below(2900)])))
+        elif r < 75 or not live:
+            slot += 1
+            live.append(slot)
+            n = 100 + rng.below(2901) if rng.chance(3, 4) else 1 + rng.below(64)
+            ops.append("pool alloc %d %d" % (slot, n))
+        else:
+            s = live[-1] if rng.chance(1, 2) else rng.choice(live)
+            live.remove(s)
+            ops.append("pool freeb %d" % s)
+    return ops + ["pool free"]
+
+
+# --------------------------------------------------------------------------------- JSON
+JS_STR = ["", "a", "key", "été", "€5", "line\nbreak", "q\"uote", "back\\slash", "tab\t",
+          "\U0001F600", " sep", "x" * 40, "long-" * 30, "ü" * 60]
+JS_KEYS = ["a", "b", "ab", "k1", "k2", "key", "é", "x" * 20, "zz", "m", "n", "o", "p", "q"]
+
+
+def js_value(rng, depth):
+    r = rng.below(100)
+    if depth > 0 and r < 22:
+        n = rng.choice([0, 1, 3, 5, 11, 12, 20, 30])
+        return [js_value(rng, depth - 1) for _ in range(n)]
+    if depth > 0 and r < 44:
+        ks = list(JS_KEYS)
+        out = {}
+        for _ in range(rng.choice([0, 1, 2, 3, 5, 9])):
+            out[ks.pop(rng.below(len(ks)))] = js_value(rng, depth - 1)
+        return out
+    if r < 60:
+        return rng.choice(JS_STR)
+    if r < 75:
+        return rng.below(2001) - 1000
+    if r < 83:
+        return rng.choice([1.5, -2.25, 0.5, 1000.0, 1e-3, 12345.678])
+    if r < 91:
+        return rng.chance(1, 2)
+    return None
+
+
+def js_text(rng, v):
+    t = json.dumps(v, ensure_ascii=rng.chance(1, 2),
+                   separators=rng.choice([(",", ":"), (", ", ": "), (" ,\n", " : ")]))
+    return t.encode("utf-8")
+
+
+def js_probe(rng, ops, slot, v):
+    """read-only ops on a slot holding value v"""
+    if isinstance(v, list):
+        for _ in range(1 + rng.below(3)):
+            ops.append("js lget %d %d" % (slot, rng.below(len(v) + 2)))
+    elif isinstance(v, dict):
+        ks = list(v.keys()) + ["nokey"]
+        for _ in range(1 + rng.below(2)):
+            ops.append("js dget %d %s" % (slot, H(rng.choice(ks).encode("utf-8"))))
+    if rng.chance(2, 3):
+        ops.append("js render %d" % slot)
+
+
+def js_scalar(rng):
+    k = rng.choice(["int", "int", "str", "str", "null", "bool", "float"])
+    if k == "int":
+        return "int %d" % (rng.below(2001) - 1000)
+    if k == "str":
+        return "str " + H(rng.choice(JS_STR).encode("utf-8"))
+    if k == "null":
+        return "null 0"
+    if k == "bool":
+        return "bool %d" % rng.below(2)
+    return "float %d" % (rng.below(41) - 20)
+
+
+def g_js_parse(rng):
+    ops = ["js new %d" % rng.choice([0, 1024, 1500, 3000])]
+    for slot in range(1, 2 + rng.below(4)):
+        v = js_value(rng, 3) if rng.chance(4, 5) else [js_value(rng, 1) for _ in range(11 + rng.below(30))]
+        t = js_text(rng, v)
+        r = rng.below(20)
+        if r == 0 and len(t) > 2:
+            t = t[:1 + rng.below(len(t) - 1)]          # truncated: syntax error, not an allocation failure
+            v = None
+        elif r == 1:
+            t = t + b" x"
+            v = None
+        ops.append("js parse %d %s" % (slot, H(t)))
+        js_probe(rng, ops, slot, v)
+    return ops + ["js free"]
+
+
+def g_js_build(rng, parse_too=False):
+    ops = ["js new %d" % rng.choice([0, 1024, 1500, 3000])]
+    kinds = {}          # slot -> "list" | "dict"
+    keys = {}           # slot -> keys used (fault-free view)
+    nelem = {}
+    free_roots = []
+    slot = 0
+    for _ in range(10 + rng.below(50)):
+        r = rng.below(100)
+        if r < 12 or not kinds:
+            slot += 1
+            if parse_too and rng.chance(1, 2):
+                v = js_value(rng, 2)
+                if not isinstance(v, (list, dict)):
+                    v = [v]
+                ops.append("js parse %d %s" % (slot, H(js_text(rng, v))))
+                kinds[slot] = "list" if isinstance(v, list) else "dict"
+                keys[slot] = set(v.keys()) if isinstance(v, dict) else set()
+                nelem[slot] = len(v)
+            else:
+                kinds[slot] = rng.choice(["list", "dict", "dict"])
+                keys[slot] = set()
+                nelem[slot] = 0
+                ops.append("js %s %d" % (kinds[slot], slot))
+                free_roots.append(slot)
+            continue
+        s = rng.choice(sorted(kinds))
+        if r < 70:
+            if kinds[s] == "list":
+                ops.append("js lapp %d %s" % (s, js_scalar(rng)))
+                nelem[s] += 1
+            else:
+                k = rng.choice(JS_KEYS) if rng.chance(9, 10) else "k%d" % rng.below(1000)
+                keys[s].add(k)           # a repeated key: documented refusal, not an allocation failure
+                ops.append("js dput %d %s %s" % (s, H(k.encode("utf-8")), js_scalar(rng)))
+        elif r < 80 and len(free_roots) > 1:
+            v = rng.choice(free_roots)
+            if v != s:
+                free_roots.remove(v)
+                if kinds[s] == "list":
+                    ops.append("js lappv %d %d" % (s, v))
+                    nelem[s] += 1
+                else:
+                    ops.append("js dputv %d %s %d" % (s, H(("sub%d" % v).encode()), v))
+        elif r < 90:
+            if kinds[s] == "list":
+                ops.append("js lget %d %d" % (s, rng.below(nelem[s] + 2)))
+            else:
+                ks = sorted(keys[s]) + ["nokey"]
+                ops.append("js dget %d %s" % (s, H(rng.choice(ks).encode("utf-8"))))
+        else:
+            ops.append("js render %d" % s)
+    if kinds:
+        ops.append("js render %d" % rng.choice(sorted(kinds)))
+    return ops + ["js free"]
+
+
+# ------------------------------------------------------------------------------- talloc
+class TaModel:
+    """fault-free view of the slot tree, only used to generate mostly meaningful scripts (the harness
+    decides what is well-defined: it prints `skip` otherwise)"""
+
+    def __init__(self):
+        self.par = {0: None}
+        self.kind = {0: "b"}
+        self.holder = set()
+        self.refs = []          # (obj, holder) in creation order
+
+    def kids(self, s):
+        return [c for c, p in self.par.items() if p == s]
+
+    def below(self, s):
+        out, todo = set(), [s]
+        while todo:
+            x = todo.pop()
+            out.add(x)
+            todo += self.kids(x)
+        return out
+
+    def free(self, s):
+        for c in self.kids(s):
+            mine = [r for r in self.refs if r[0] == c]
+            if mine:
+                self.refs.remove(mine[0])
+                self.par[c] = mine[0][1]
+            else:
+                self.free(c)
+        self.refs = [r for r in self.refs if r[0] != s and r[1] != s]
+        self.holder.discard(s)
+        del self.par[s]
+        del self.kind[s]
+
+    def nrefs(self, s):
+        return sum(1 for r in self.refs if r[0] == s)
+
+
+def g_ta(rng, mode):
+    m = TaModel()
+    ops = ["ta top"]
+    slot = 0
+    for _ in range(8 + rng.below(45)):
+        r = rng.below(100)
+        objs = [s for s in m.par if s != 0]
+        plain = [s for s in m.par if s not in m.holder]
+        blocks = [s for s in m.par if m.kind[s] == "b"]
+        strs = [s for s in m.par if m.kind[s] == "s"]
+        if mode == "tree":
+            w = [("new", 32), ("strdup", 6), ("realloc", 14), ("steal", 14), ("free", 12), ("name", 10),
+                 ("asprintf", 4), ("unlink", 4), ("append", 4)]
+        elif mode == "strings":
+            w = [("new", 8), ("strdup", 24), ("asprintf", 18), ("append", 26), ("free", 8), ("steal", 6),
+                 ("realloc", 4), ("name", 6)]
+        else:
+            w = [("new", 22), ("holder", 12), ("ref", 24), ("unlink", 12), ("free", 12), ("strdup", 8),
+                 ("steal", 5), ("realloc", 3), ("name", 2)]
+        tot = sum(x[1] for x in w)
+        r = rng.below(tot)
+        for op, wt in w:
+            if r < wt:
+                break
+            r -= wt
+        if op in ("new", "strdup", "asprintf", "holder"):
+            slot += 1
+            p = 0 if op == "holder" or rng.chance(1, 4) else rng.choice(plain)
+            if op in ("new", "holder"):
+                ops.append("ta new %d %d %d" % (slot, p, rng.choice([0, 1, 8, 24, 100, 1000, rng.below(300)])))
+                m.kind[slot] = "b"
+            elif op == "strdup":
+                ops.append("ta strdup %d %d %s" % (slot, p, H(rng.choice(JS_STR).encode("utf-8"))))
+                m.kind[slot] = "s"
+            else:
+                ops.append("ta asprintf %d %d %d" % (slot, p, rng.below(100000) - 500))
+                m.kind[slot] = "s"
+            m.par[slot] = p
+        elif op == "append" and strs:
+            ops.append("ta append %d %s" % (rng.choice(strs), H(rng.choice(JS_STR + ["y" * 200]).encode("utf-8"))))
+        elif op == "realloc" and blocks:
+            ops.append("ta realloc %d %d" % (rng.choice(blocks), rng.choice([1, 8, 9, 64, 200, 1000, 1 + rng.below(500)])))
+        elif op == "name" and blocks:
+            ops.append("ta name %d %d" % (rng.choice(blocks), rng.below(1000)))
+        elif op == "steal" and len(objs) >= 1:
+            s = rng.choice(objs)
+            cand = [x for x in plain if x not in m.below(s)]
+            if s in m.holder or not cand:
+                continue
+            np = rng.choice(cand)
+            ops.append("ta steal %d %d" % (s, np))
+            if m.nrefs(s) == 0:
+                m.par[s] = np
+        elif op == "free" and objs:
+            s = rng.choice(objs)
+            if m.nrefs(s):
+                continue
+            ops.append("ta free %d" % s)
+            m.free(s)
+        elif op == "ref" and objs:
+            hs = [s for s in objs if m.kind[s] == "b" and m.par[s] == 0 and (s in m.holder or not m.kids(s))
+                  and m.nrefs(s) == 0]
+            if not hs:
+                continue
+            h = rng.choice(hs)
+            cand = [s for s in objs if s != h and s not in m.holder]
+            if not cand:
+                continue
+            o = rng.choice(cand)
+            ops.append("ta ref %d %d" % (o, h))
+            m.holder.add(h)
+            m.refs.append((o, h))
+        elif op == "unlink" and objs:
+            if m.refs and rng.chance(2, 3):
+                o, h = rng.choice(m.refs)
+                if rng.chance(1, 3):
+                    h = m.par[o]             # through the primary parent: the object moves to a holder
+            else:
+                o = rng.choice(objs)
+                h = m.par[o] if rng.chance(1, 2) else rng.choice(list(m.par))
+            if h == o or o == 0:
+                continue
+            ops.append("ta unlink %d %d" % (h, o))
+            mine = [x for x in m.refs if x[0] == o]
+            if h == m.par[o]:
+                if mine:
+                    m.refs.remove(mine[0])
+                    m.par[o] = mine[0][1]
+                else:
+                    m.free(o)
+            else:
+                via = [x for x in mine if x[1] == h]
+                if via:
+                    m.refs.remove(via[0])
+    if rng.chance(1, 3):
+        ops.append("ta realloc 0 %d" % rng.choice([1, 64, 500]))
+    return ops + ["ta done"]
+
+
+# ------------------------------------------------------------------------ regex / mempool
+RX_LIT = "abcdxyz"
+RX_CLS = [("[a-c]", "abc"), ("[^x]", "abz"), ("[[:alpha:]]", "qaZ"), ("[xyz]", "xyz"), ("[a-cx-z]", "ay"),
+          ("[[:digit:]b]", "b7")]
+
+
+def rx_lits(rng):
+    return "".join(rng.choice(RX_LIT) for _ in range(1 + rng.below(3)))
+
+
+def rx_quant(rng, pat, sample, bre):
+    """(pattern, a string it matches) after attaching a random repetition to a single atom"""
+    q = rng.below(10)
+    if q == 0:
+        return pat + "*", sample * rng.below(3)
+    if q == 1:
+        if bre:
+            return pat + "\\{1,3\\}", sample * (1 + rng.below(3))
+        return pat + "+", sample * (1 + rng.below(2))
+    if q == 2:
+        if bre:
+            return pat + "\\{2\\}", sample * 2
+        return pat + "?", sample * rng.below(2)
+    if q == 3 and not bre:
+        return pat + rng.choice(["{1,3}", "{2}"]), sample * 2
+    return pat, sample
+
+
+def rx_ere(rng):
+    """ERE with 20..60 atoms in 1..n alternatives; returns (pattern, string matched by the first branch)"""
+    branches = []
+    cur, smp = "", ""
+    for _ in range(20 + rng.below(41)):
+        r = rng.below(100)
+        if r < 40:
+            a = x = rng.choice(RX_LIT)
+        elif r < 50:
+            a, x = ".", rng.choice("xq1")
+        elif r < 70:
+            a, cs = rng.choice(RX_CLS)
+            x = rng.choice(cs)
+        elif r < 92:
+            alts = [rx_lits(rng) for _ in range(1 + rng.below(3))]
+            a, x = "(" + "|".join(alts) + ")", alts[0]
+        else:
+            a, x = rng.choice([("\\.", "."), ("\\(", "(")])
+        a, x = rx_quant(rng, a, x, False)
+        cur += a
+        smp += x
+        if rng.chance(1, 6):
+            branches.append((cur, smp))
+            cur, smp = "", ""
+    if cur or not branches:
+        branches.append((cur or "a", smp if cur else "a"))
+    return "|".join(b[0] for b in branches), branches[0][1]
+
+
+def rx_bre(rng):
+    """BRE with groups and back-references; returns (pattern, a string it matches)"""
+    out, smp = "", ""
+    groups = []
+    for _ in range(20 + rng.below(41)):
+        r = rng.below(100)
+        if r < 45:
+            a = x = rng.choice(RX_LIT)
+        elif r < 55:
+            a, x = ".", rng.choice("xq1")
+        elif r < 75:
+            a, cs = rng.choice(RX_CLS[:4])
+            x = rng.choice(cs)
+        elif r < 90 and len(groups) < 8:
+            x = rx_lits(rng)
+            a = "\\(" + x + "\\)"
+            groups.append(x)
+            out += a
+            smp += x
+            continue
+        elif groups:
+            g = rng.below(len(groups))
+            a, x = "\\%d" % (g + 1), groups[g]
+        else:
+            a = x = "b"
+        a, x = rx_quant(rng, a, x, True)
+        out += a
+        smp += x
+    return out, smp
+
+
+def g_rx(rng, bre):
+    ops = []
+    for _ in range(1 + rng.below(3)):
+        pat, smp = rx_bre(rng) if bre else rx_ere(rng)
+        fl = (0 if bre else 1) | rng.choice([0, 0, 2, 4, 8, 2 | 8])
+        if rng.chance(1, 12):
+            pat += rng.choice(["(", "[a", "\\", "a{2", "*"]) if not bre else rng.choice(["\\(", "[a", "\\9"])
+        ops.append("rx comp %s %d" % (H(pat.encode()), fl))
+        for _ in range(1 + rng.below(3)):
+            r = rng.below(3)
+            if r == 0:
+                s = smp
+            elif r == 1:
+                s = "".join(rng.choice("zq\n") for _ in range(rng.below(4))) + smp + rng.choice(["", "zz", "\n"])
+            else:
+                s = "".join(rng.choice(RX_LIT + "AB1\n") for _ in range(rng.below(25)))
+            ops.append("rx exec " + H(s.encode()))
+        ops.append("rx free")
+    return ops
+
+
+def g_mp(rng):
+    ops = []
+    slot = 0
+    for _ in range(1 + rng.below(2)):
+        for _ in range(5 + rng.below(36)):
+            slot += 1
+            n = rng.choice([1, 8, 9, 100, 400, 512, 513, 2000, 5000, 1 + rng.below(1500)])
+            ops.append("mp alloc %d %d" % (slot, n))
+        ops.append("mp free")
+    return ops
+
+
+# --------------------------------------------------------------------- fnmatch / wchar
+FN_CH = ["a", "b", "c", "/", ".", "A", "é", "€"]
+
+
+def fn_pair(rng):
+    """a (pattern, string) pair; the stack buffers hold 128 wide characters, a byte length >= 127
+    makes mbstr_decode use malloc"""
+    n = rng.choice([0, 5, 60, 126, 127, 128, 200, 400])
+    s = "".join(rng.choice(FN_CH) for _ in range(n))
+    r = rng.below(10)
+    if r < 3:
+        p = s
+    elif r < 5:
+        p = "*" + s[len(s) // 2:]
+    elif r < 7:
+        p = s[:len(s) // 3] + "*" + rng.choice(["[a-c]", "?", "[!x]", "[[:alpha:]]"]) + "*"
+    elif r < 8:
+        p = "".join(rng.choice(FN_CH + ["*", "?", "[a-c]", "\\a"]) for _ in range(rng.choice([3, 130, 260])))
+    else:
+        p = rng.choice(["*", "?" * max(1, n), "a" * 300, "[", "*/" * 70])
+    pb, sb = p.encode("utf-8"), s.encode("utf-8")
+    q = rng.below(12)
+    if q == 0:
+        sb = sb[:len(sb) // 2] + b"\xff\xc3" + sb[len(sb) // 2:]      # invalid in the string: tolerated
+    elif q == 1:
+        pb = pb + b"\xff"                                              # invalid in the pattern: no match
+    return pb, sb
+
+
+def g_fn(rng):
+    ops = ["fn match - - 0"]
+    for _ in range(3 + rng.below(8)):
+        pb, sb = fn_pair(rng)
+        ops.append("fn match %s %s %d" % (H(pb), H(sb), rng.choice([0, 0, 1, 2, 4, 8, 16, 1 | 4, 8 | 16, 31])))
+    return ops
+
+
+def g_mbs(rng):
+    ops = ["fn match - - 0"]
+    for _ in range(3 + rng.below(8)):
+        n = rng.choice([0, 1, 10, 127, 128, 300])
+        b = "".join(rng.choice(FN_CH) for _ in range(n)).encode("utf-8")
+        q = rng.below(6)
+        if q == 0:
+            b = b[:len(b) // 2] + rng.choice([b"\xff", b"\xc3", b"\xe2\x82"]) + b[len(b) // 2:]
+        elif q == 1:
+            b = b + b"\xe2\x82"
+        ops.append("mbs decode %s %d" % (H(b), rng.below(2)))
+    return ops
+
+
+# -------------------------------------------------------------------------- tls_config
+TLS_VALUES = {
+    "ca_file": [b"/etc/ssl/cert.pem", b"/tmp/" + b"c" * 200, b"x"],
+    "ca_path": [b"/etc/ssl/certs", b"/p"],
+    "ca_mem": [b"-----BEGIN CERTIFICATE-----\nMIIB\n-----END CERTIFICATE-----\n", b"A" * 700, b"z"],
+    "cert_file": [b"/tmp/cert.pem", b"c" * 90],
+    "cert_mem": [b"CERT" * 50, b"c"],
+    "key_file": [b"/tmp/key.pem", b"k" * 90],
+    "key_mem": [b"KEY" * 40, b"k"],
+    "ciphers": [b"secure", b"compat", b"legacy", b"insecure", b"default", b"fast", b"HIGH:!aNULL",
+                b"ECDHE-RSA-AES128-GCM-SHA256:AES256-SHA", b"no-such-cipher"],
+    "protocols": [b"tlsv1.2,tlsv1.3", b"all", b"secure", b"all,!tlsv1.0", b"tlsv1.2:tlsv1.1", b"bogus", b"legacy"],
+    "dheparams": [b"none", b"auto", b"legacy", b"1024"],
+    "ecdhecurve": [b"none", b"auto", b"prime256v1", b"secp384r1", b"bogus"],
+    "keypair_mem": [b"PAIR" * 30, b"p"],
+    "ocsp_stapling_mem": [b"OCSP" * 25, b"o"],
+}
+
+
+def g_tls(rng):
+    ops = ["tls new"]
+    whats = sorted(TLS_VALUES)
+    for _ in range(5 + rng.below(16)):
+        w = rng.choice(whats)
+        ops.append("tls set %s %s" % (w, H(rng.choice(TLS_VALUES[w]))))
+    return ops + ["tls free"]
+
+
+# ----------------------------------------------------------------- cx_* string helpers
+def g_cxs(rng):
+    ops = ["cxs memdup -"]
+    for _ in range(4 + rng.below(10)):
+        n = rng.choice([0, 1, 10, 40, 55, 62, 63, 64, 65, 100, 300, 1000])      # 2n+3.. bytes printed
+        s = "".join(rng.choice("abcXYZ09 %") for _ in range(n)).encode()
+        op = rng.choice(["sprintf", "sprintf", "asprintf", "asprintf", "strdup", "memdup"])
+        if op in ("sprintf", "asprintf"):
+            ops.append("cxs %s %s %d" % (op, H(s), rng.below(200001) - 100000))
+        else:
+            ops.append("cxs %s %s" % (op, H(s)))
+    return ops
+
+
+FAMILIES = {
+    # the pool only takes memory when an op needs a new segment, and then the op succeeds: an op that
+    # reports failure has allocated nothing (stricter than required; holds on the real code)
+    "pool-alloc": (lambda r: g_pool(r, "alloc"), "h", {"prefix": "pool ", "strict_live": True, "live_exact": True}),
+    "pool-realloc": (lambda r: g_pool(r, "realloc"), "h", {"prefix": "pool ", "strict_live": True, "live_exact": True}),
+    # JSON: all values live in the context's pool; an op that allocates twice may have obtained a new
+    # pool segment before its second allocation fails (the segment stays until json_free_context)
+    "js-parse": (g_js_parse, "h", {"prefix": "js ", "strict_live": False, "live_exact": False}),
+    "js-build": (lambda r: g_js_build(r), "h", {"prefix": "js ", "strict_live": False, "live_exact": False}),
+    "js-mixed": (lambda r: g_js_build(r, True), "h", {"prefix": "js ", "strict_live": False, "live_exact": False}),
+    "ta-tree": (lambda r: g_ta(r, "tree"), "h", {"prefix": "ta ", "strict_live": True, "live_exact": True}),
+    "ta-strings": (lambda r: g_ta(r, "strings"), "h", {"prefix": "ta ", "strict_live": True, "live_exact": True}),
+    "ta-refs": (lambda r: g_ta(r, "refs"), "h", {"prefix": "ta ", "strict_live": True, "live_exact": True}),
+    "rx-ere": (lambda r: g_rx(r, False), "h2", {"prefix": "rx ", "strict_live": True, "live_exact": True}),
+    "rx-bre": (lambda r: g_rx(r, True), "h2", {"prefix": "rx ", "strict_live": True, "live_exact": True}),
+    "mp-alloc": (g_mp, "h2", {"prefix": "mp ", "strict_live": True, "live_exact": True}),
+    "fn-long": (g_fn, "h2", {"prefix": "fn ", "strict_live": True, "live_exact": True}),
+    "mbs-decode": (g_mbs, "h2", {"prefix": "mbs ", "strict_live": True, "live_exact": True}),
+    # tls_config: claimed as "no crash, no leak, error reported" only.  set_string()/set_mem() free the old
+    # value before duplicating the new one, so a failed setter leaves its field NULL (live decreases);
+    # the dump holds only the numeric fields, which a failed setter provably keeps
+    "tls-config": (g_tls, "h2", {"prefix": "tls ", "strict_live": False, "live_exact": False}),
+    "cxs-format": (g_cxs, "h2", {"prefix": "cxs ", "strict_live": True, "live_exact": True}),
+}
